@@ -83,6 +83,37 @@ def life1(ctx: Ctx, chk, rule: str, funcs: list[FuncInfo]) -> int:
             if "Task" not in t and "Future" not in t:
                 continue
             awaits = [n for n in ctx.own_nodes(f) if isinstance(n, ast.Await) and norm(n.value) == tgt and n.lineno >= c.lineno]
+            # the outcome of the cancelled task may also be fetched without awaiting it: `await asyncio.wait([t])`
+            # (never raises the task's outcome) followed by t.exception() / t.result(), which raise CancelledError
+            # for a task that ended cancelled
+            waits = [n for n in ctx.own_nodes(f) if isinstance(n, ast.Await) and isinstance(n.value, ast.Call) and norm(n.value.func).rsplit(".", 1)[-1] == "wait" and any(isinstance(x, ast.Name) and x.id == tgt for x in ast.walk(n.value)) and n.lineno >= c.lineno]
+            fetches = [n for n in ctx.own_nodes(f) if isinstance(n, ast.Call) and isinstance(n.func, ast.Attribute) and n.func.attr in ("exception", "result") and norm(n.func.value) == tgt and not n.args and n.lineno >= c.lineno]
+            for a in (fetches if waits else []):
+                n_inst += 1
+                chk.instance(rule)
+                key = fkey(f, a)
+                prot = protected_from_cancel(ctx, f, a)
+                if prot:
+                    chk.ok(rule, key, f"outcome of the cancelled task fetched under {prot}", ctx.loc(f, a))
+                    continue
+                fr = Frame(Callee(f, f.cls, ()), None)
+                bodies = eea.task_bodies(ast.Name(id=tgt, ctx=ast.Load()), fr) if tgt.isidentifier() else []
+                ok_all = bool(bodies)
+                why = "task body not found"
+                for g, call in bodies:
+                    gfr = Frame(Callee(g, g.cls, ()), None)
+                    for tg in ctx.I.resolve_call(call, gfr):
+                        if tg.kind == "repo" and tg.frame is not None:
+                            ok, why = body_absorbs_cancel(ctx, tg.frame.func)
+                            if not ok:
+                                ok_all = False
+                                why = f"{tg.frame.func.qualname}: {why}"
+                        else:
+                            ok_all = False
+                if ok_all:
+                    chk.ok(rule, key, f"task body absorbs cancellation: {why}", ctx.loc(f, a))
+                else:
+                    chk.refute(rule, key, f"`{tgt}.cancel()` ... `{norm(a)}`: Task.{a.func.attr}() raises CancelledError for a task that ended cancelled, which it does whenever it is cancelled at an unprotected suspension point ({why}); everything after it is skipped", ctx.loc(f, a))
             for a in awaits:
                 n_inst += 1
                 chk.instance(rule)
